@@ -40,7 +40,7 @@ def fills(seed):
 
 # a device change alone is invisible to the inverter until it reads: changes come with the runtime read that notices
 HIST = ['runtime', 'sensor:first', 'dev:battery-off', 'dev:battery-on', 'dev:refuse-mppt', 'dev:accept-mppt',
-        'dev:refuse-battery2', 'dev:refuse-meter-ext2']
+        'dev:refuse-battery2', 'dev:refuse-meter-ext2', 'settings:colliding', 'sensor:all']
 
 
 def apply(r, cfg, name):
@@ -49,6 +49,14 @@ def apply(r, cfg, name):
         r.call(inv.read_runtime_data)
     elif name == 'sensor:first':
         r.call(inv.read_sensor, inv.sensors()[1].id_)
+    elif name == 'sensor:all':
+        for x in inv.sensors():
+            r.call(inv.read_sensor, x.id_)
+    elif name == 'settings:colliding':
+        # ids that exist both as a sensor and as a setting (different registers): the other entry point first
+        both = {x.id_ for x in inv.sensors()} & {x.id_ for x in inv.settings()}
+        for sid in sorted(both):
+            r.call(inv.read_setting, sid)
     elif name == 'dev:battery-off':
         dev.rf.set(35184, 0)
     elif name == 'dev:battery-on':
@@ -76,7 +84,7 @@ def sweep(cfg, fill, hist, transport='udp'):
     if di[0] != 'ok':
         return [('device-info', str(di), None)], None, 0
     for name in hist:
-        if cfg['family'] == 'ET' or name in ('runtime', 'sensor:first'):
+        if cfg['family'] == 'ET' or name in ('runtime', 'sensor:first', 'sensor:all', 'settings:colliding'):
             apply(r, cfg, name)
     state = (tuple(sorted((k, v) for k, v in vars(inv).items() if k.startswith('_has'))),
              inv._sensors_map is None if hasattr(inv, '_sensors_map') else None,
@@ -158,7 +166,7 @@ def job(j):
         states.add(st)
         if len(hist) >= depth or cfg['family'] != 'ET':
             if cfg['family'] != 'ET' and not hist:
-                for nm in ('runtime', 'sensor:first'):
+                for nm in ('runtime', 'sensor:first', 'sensor:all', 'settings:colliding'):
                     frontier.append([nm])
                     edges += 1
             continue
